@@ -4,12 +4,12 @@ package main
 // compiled Lean model (tv_c07) is run on the same lines.
 //
 //   R  generator.FileManager.BuildResponse (newInsertionPointReplacer, Add, Replace → strings.NewReplacer)
-//   D  thrift_reflection.GetFileDescriptor + meta.Marshal: bytes under the iteration order the runtime picked
+//   D  thrift_reflection.GetFileDescriptor + meta.Marshal: 8 calls; every distinct byte string is a case, the
+//      model sorts the entries as the code does (so a second byte string for one descriptor disagrees with it)
 //   N  pkg/namespace: Add in a given order, then Iterate / Get
 //
 // Map iteration order is re-randomised at every `range`, so repeating a call inside one process
-// samples different orders; every repetition must equal the model (R, N: one result for all orders;
-// D: the model's bytes for the order read back from the output).
+// samples different orders; every repetition must equal the model (one result for all orders).
 
 import (
 	"encoding/binary"
